@@ -28,7 +28,7 @@ import (
 
 const c51Pkg = "gno.land/r/verif/grc20drv"
 
-const c51NAcct = 6 // 4 valid addresses + 2 invalid ones
+const c51NAcct = 5 // 4 valid addresses + 1 invalid one (which one: case flag)
 
 type c51Op struct {
 	Op  string `json:"op"`            // M B T P F D
@@ -40,7 +40,8 @@ type c51Op struct {
 }
 
 type c51Case struct {
-	Ops []c51Op `json:"ops"`
+	BadEmpty bool    `json:"bad_empty"` // the invalid address is "" (else: a bech32 string with a broken checksum)
+	Ops      []c51Op `json:"ops"`
 }
 
 var (
@@ -63,7 +64,7 @@ func c51Machine() *libVM {
 		} else {
 			bad[len(bad)-1] = 'q'
 		}
-		c51Addrs = append(c51Addrs, "", string(bad))
+		c51Addrs = append(c51Addrs, string(bad))
 	})
 	return c51VM
 }
@@ -89,7 +90,7 @@ func (s *c51State) render() string {
 	return strconv.FormatInt(s.supply, 10) + "|" + strings.Join(bs, ",") + "|" + strings.Join(as, ",")
 }
 
-func c51ParseState(line string) (c51State, error) {
+func c51ParseState(line string, prev *c51State) (c51State, error) {
 	var s c51State
 	f := strings.Split(line, "|")
 	if len(f) != 3 {
@@ -100,14 +101,18 @@ func c51ParseState(line string) (c51State, error) {
 		return s, err
 	}
 	bs, as := strings.Split(f[1], ","), strings.Split(f[2], ",")
-	if len(bs) != c51NAcct || len(as) != c51NAcct*c51NAcct {
+	short := f[2] == "-" // allowances not dumped for this op: carried over from prev
+	if len(bs) != c51NAcct || (!short && len(as) != c51NAcct*c51NAcct) {
 		return s, fmt.Errorf("bad state %q", line)
+	}
+	if short {
+		s.allow = prev.allow
 	}
 	for i := 0; i < c51NAcct; i++ {
 		if s.bal[i], err = strconv.ParseInt(bs[i], 10, 64); err != nil {
 			return s, err
 		}
-		for j := 0; j < c51NAcct; j++ {
+		for j := 0; j < c51NAcct && !short; j++ {
 			if s.allow[i][j], err = strconv.ParseInt(as[i*c51NAcct+j], 10, 64); err != nil {
 				return s, err
 			}
@@ -210,31 +215,44 @@ func (o c51Op) line() string {
 }
 
 func c51DrawAcct(rt *rapid.T, label string) int {
-	// mostly the four valid accounts, sometimes an invalid address
+	// mostly the four valid accounts, sometimes the invalid address
 	if rapid.IntRange(0, 19).Draw(rt, label+"inv") == 0 {
-		return rapid.IntRange(4, 5).Draw(rt, label+"bad")
+		return 4
 	}
 	return rapid.IntRange(0, 3).Draw(rt, label)
 }
 
 func c51Draw(rt *rapid.T) c51Case {
-	var c c51Case
-	var s c51State // generator-side copy of the model: only used to aim amounts at boundaries
-	n := rapid.IntRange(1, 40).Draw(rt, "nops")
+	c := c51Case{BadEmpty: rapid.Bool().Draw(rt, "badEmpty")}
+	var s c51State // generator-side copy of the model: only used to aim accounts and amounts at interesting spots
+	n := rapid.IntRange(1, 36).Draw(rt, "nops")
 	for k := 0; k < n; k++ {
 		var o c51Op
 		w := rapid.IntRange(0, 99).Draw(rt, "w")
-		if k < 3 && w >= 50 {
+		if k < 2 && w >= 50 {
 			w = 0
 		}
+		live := false
+		for i := 0; i < c51NAcct && !live; i++ {
+			for j := 0; j < c51NAcct; j++ {
+				if s.allow[i][j] > 0 && s.bal[i] > 0 {
+					live = true
+				}
+			}
+		}
+		if live && w < 48 && w%3 == 0 {
+			w = 70 // a spendable allowance exists: use it more often
+		} else if !live && s.supply > 0 && w >= 66 && w < 93 && w%2 == 0 {
+			w = 50 // nothing to spend yet: approve instead
+		}
 		switch {
-		case w < 20:
+		case w < 18:
 			o.Op = "M"
-		case w < 30:
+		case w < 28:
 			o.Op = "B"
-		case w < 50:
+		case w < 48:
 			o.Op = "T"
-		case w < 68:
+		case w < 66:
 			o.Op = "P"
 		case w < 93:
 			o.Op = "F"
@@ -248,8 +266,35 @@ func c51Draw(rt *rapid.T) c51Case {
 		if o.Op == "F" {
 			o.C = c51DrawAcct(rt, "c")
 		}
+		aim := rapid.IntRange(0, 9).Draw(rt, "aim") < 7
+		if aim {
+			// aim at accounts that can act: funded owners, pairs with a live allowance
+			var funded []int
+			var pairs [][2]int
+			for i := 0; i < c51NAcct; i++ {
+				if s.bal[i] > 0 {
+					funded = append(funded, i)
+				}
+				for j := 0; j < c51NAcct; j++ {
+					if s.allow[i][j] > 0 && (o.Op == "D" || s.bal[i] > 0) {
+						pairs = append(pairs, [2]int{i, j})
+					}
+				}
+			}
+			switch o.Op {
+			case "B", "T", "P":
+				if len(funded) > 0 {
+					o.A = rapid.SampledFrom(funded).Draw(rt, "fundedA")
+				}
+			case "F", "D":
+				if len(pairs) > 0 {
+					pr := rapid.SampledFrom(pairs).Draw(rt, "pair")
+					o.A, o.B = pr[0], pr[1]
+				}
+			}
+		}
 		if o.Op == "T" || o.Op == "P" || o.Op == "F" {
-			o.Via = rapid.SampledFrom([]string{"l", "l", "l", "t", "t", "r"}).Draw(rt, "via")
+			o.Via = rapid.SampledFrom([]string{"l", "l", "l", "t", "t", "t", "r"}).Draw(rt, "via")
 		}
 		// boundary candidates relative to the current model state
 		cands := []int64{0, 1, int64(rapid.IntRange(2, 1000).Draw(rt, "small")), math.MaxInt64, -1, math.MinInt64}
@@ -265,25 +310,34 @@ func c51Draw(rt *rapid.T) c51Case {
 		switch o.Op {
 		case "M":
 			around(math.MaxInt64 - s.supply)
-			cands = append(cands, int64(rapid.IntRange(1, 1000).Draw(rt, "m2")), int64(rapid.IntRange(1, 1000).Draw(rt, "m3")), 1<<62)
+			for i := 0; i < 6; i++ {
+				cands = append(cands, int64(rapid.IntRange(1, 1000).Draw(rt, "m")))
+			}
+			cands = append(cands, 1<<62)
 		case "B", "T":
 			around(s.bal[o.A])
 			around(s.bal[o.A] / 2)
 		case "P":
 			around(s.bal[o.A])
+			around(s.bal[o.A] / 2)
 			cands = append(cands, int64(rapid.IntRange(1, 1000).Draw(rt, "p2")))
 		case "F":
+			lo := s.bal[o.A]
+			if s.allow[o.A][o.B] < lo {
+				lo = s.allow[o.A][o.B]
+			}
+			around(lo)
+			around(lo / 2)
 			around(s.bal[o.A])
 			around(s.allow[o.A][o.B])
-			around(s.allow[o.A][o.B] / 2)
 		case "D":
 			around(s.allow[o.A][o.B])
 			around(s.allow[o.A][o.B] / 2)
 		}
-		// weight: the two "special" negatives and Max get picked less often
-		idx := rapid.IntRange(0, len(cands)+5).Draw(rt, "amt")
+		// the six fixed candidates get picked less often than the state-relative ones
+		idx := rapid.IntRange(0, 2*len(cands)-7).Draw(rt, "amt")
 		if idx >= len(cands) {
-			idx = 6 + (idx-len(cands))%(len(cands)-6)
+			idx = 6 + (idx - len(cands))
 		}
 		o.Amt = cands[idx]
 		c.Ops = append(c.Ops, o)
@@ -296,7 +350,11 @@ func c51Draw(rt *rapid.T) c51Case {
 
 func c51Exec(ctx *vk.Ctx, c c51Case) error {
 	vm := c51Machine()
-	prog := []string{strings.Join(c51Addrs, "|")}
+	addrs := append([]string{}, c51Addrs...)
+	if c.BadEmpty {
+		addrs[4] = ""
+	}
+	prog := []string{strings.Join(addrs, "|")}
 	for _, o := range c.Ops {
 		if o.A < 0 || o.A >= c51NAcct || o.B < 0 || o.B >= c51NAcct || o.C < 0 || o.C >= c51NAcct {
 			return fmt.Errorf("bad case: account index out of range")
@@ -319,7 +377,7 @@ func c51Exec(ctx *vk.Ctx, c c51Case) error {
 	for i, o := range c.Ops {
 		p := strings.Index(lines[i+1], "|")
 		errText, stateLine := lines[i+1][:p], lines[i+1][p+1:]
-		got, err := c51ParseState(stateLine)
+		got, err := c51ParseState(stateLine, &s)
 		if err != nil {
 			return err
 		}
@@ -385,7 +443,7 @@ func c51Exec(ctx *vk.Ctx, c c51Case) error {
 func TestC51_Grc20Ledger(t *testing.T) {
 	vk.Run(t, vk.Spec[c51Case]{
 		ID: "C51", Name: "TestC51_Grc20Ledger",
-		Rule: "rapid: history of <=40 calls of Mint/Burn/Transfer/Approve/TransferFrom/SpendAllowance (PrivateLedger directly, via ImpersonateTeller, via ReadonlyTeller) over 4 valid and 2 invalid addresses with amounts aimed at the model's boundaries {0,1,bal-1,bal,bal+1,allowance±1,MaxInt64-supply±1,MaxInt64,-1,MinInt64}; run once by the Gno driver realm; non-trivial = a TransferFrom moved a positive amount and some call was rejected on a funded ledger; distinct by case hash",
+		Rule: "rapid: history of <=36 calls of Mint/Burn/Transfer/Approve/TransferFrom/SpendAllowance (PrivateLedger directly, via ImpersonateTeller, via ReadonlyTeller) over 4 valid addresses and 1 invalid one with amounts aimed at the model's boundaries {0,1,bal-1,bal,bal+1,allowance±1,MaxInt64-supply±1,MaxInt64,-1,MinInt64}; run once by the Gno driver realm; non-trivial = a TransferFrom moved a positive amount and some call was rejected on a funded ledger; distinct by case hash",
 		Draw: c51Draw,
 		Exec: c51Exec,
 	})
